@@ -43,7 +43,16 @@ impl Typstyle {
             return Err(Error::SyntaxError);
         };
         // Infer indent from context.
-        let indent = utils::count_spaces_after_last_newline(source.text(), node.range().start);
+        let indent = if matches!(
+            node.kind(),
+            SyntaxKind::ListItem | SyntaxKind::EnumItem | SyntaxKind::TermItem
+        ) {
+            // The nesting of an item is decided by the column of its marker, also when it follows another marker
+            // on the same line (`- - a`).
+            utils::column_at(source.text(), node.range().start)
+        } else {
+            utils::count_spaces_after_last_newline(source.text(), node.range().start)
+        };
         let res = doc
             .nest(indent as isize)
             .pretty(self.config.max_width)
